@@ -162,6 +162,63 @@ def fpo_formulas(res, prog, rid):
     for need in ('eip', 'esp', 'ebp', 'ebx'):
         if need not in outputs:
             res.violation(rid, '%s|missing|%s' % (rid, need), f, f.line, 'the FPO unwinder never sets $%s' % need)
+    # what each path demands: a `?` on a callee register or on a stack read makes the whole record fail when that input
+    # is unknown, so each may sit only on the paths whose documented formula uses it
+    demands = 0
+    for b, t in f.calls():
+        if not ((f.callee_decl(t) or '').endswith('Try::branch') or (f.callee(t) or '').endswith('Try>::branch')):
+            continue
+        a = f.operand_tree(t['args'][0])
+        for facts, env in ex.states.get(b, ()):
+            envd = ex.env_at_term(b, env)
+            x = norm(subst(a, envd))
+            if not (isinstance(x, tuple) and x[0] == 'call'):
+                continue
+            fs = dict((sh(c), v) for c, v in facts)
+            abp = fs.get(ABP)
+            why = None
+            if x[1].endswith('FrameWalker::get_callee_register'):
+                name = sh(x[3]).strip('"') if len(x) > 3 else '?'
+                if name == 'esp':
+                    pass
+                elif name == 'eip':
+                    if fs.get(CTX) is not True:
+                        why = 'the callee\'s $eip is demanded on a path that is not a context frame'
+                elif name == 'ebp':
+                    if abp is not False:
+                        why = 'the callee\'s %%ebp is demanded where the record does not pass it through (allocates_base_pointer is %s on this path): a callee whose %%ebp is unknown, e.g. a scanned frame, no longer unwinds' % abp
+                else:
+                    why = 'the callee\'s %s is demanded; the FPO formulae read only $esp, $eip (leftover check) and %%ebp (pass-through)' % name
+                key = 'reg|' + name
+            elif x[1].endswith('FrameWalker::get_register_at_address'):
+                got = shape(x)
+                frame = {ESP: 1, 'info.local_size': 1, 'info.saved_register_size': 1, P: 1}
+                ok0 = ('load', tuple(sorted(frame.items())))
+                ok1 = ('load', tuple(sorted(list(frame.items()) + [('1', 4)])))
+                okb = ('load', tuple(sorted([(ESP, 1), (P, 1), ('info.saved_register_size', 1), ('1', -8)])))
+                key = 'load'
+                if got == ok0:
+                    pass
+                elif got == ok1:
+                    if not (fs.get(CTX) is True and fs.get(SAME) is True):
+                        why = 'the word after the return address is demanded on a path without a leftover return address'
+                elif got == okb:
+                    if abp is not True:
+                        why = 'the saved-%ebp slot is demanded on a path where the record allocates no base pointer'
+                else:
+                    why = 'a stack word at %s is demanded; the FPO formulae read only the return address, the word after it (leftover) and the saved-%%ebp slot' % (got,)
+            else:
+                continue
+            k2 = (key, why)
+            if k2 in seen:
+                continue
+            seen.add(k2)
+            demands += 1
+            res.rule(rid, 1)
+            if why:
+                res.violation(rid, '%s|demand|%s' % (rid, key), f, t.get('line'), why)
+    if demands < 4:
+        res.error(rid, 'only %d demanded inputs (`?` on a callee register or stack read) found in the FPO unwinder; expected esp, eip, ebp and the stack reads' % demands)
     # success is only reported after the three registers were set
     sets = {}
     for b, t in f.calls():
